@@ -77,6 +77,19 @@ func genConc(out *bufio.Writer, rng *rand.Rand, rounds int) int {
 		[]byte("step equ 2\ngap equ 1\nn equ step*step+gap\ni for n\ndat i\nrof\n"),
 		[]byte("u equ 3\nv equ 4\nw equ 5\nk equ u+u*v-w+v\nm equ k+u-k+w\ni for m-7\nmov i, k\nrof\ndat m, k\n"),
 		[]byte("z9 equ z1+z1+z2+z2+z3\nz1 equ 1\nz2 equ 2\nz3 equ 3\ni for z9-7\ndat i, z9\nrof\n"))
+	// deep EQU chains (recursion depth of the resolver depends on the map order)
+	for _, depth := range []int{20, 34, 40, 60} {
+		var sb strings.Builder
+		for d := depth; d >= 1; d-- {
+			if d == 1 {
+				sb.WriteString("c1 equ 1\n")
+			} else {
+				fmt.Fprintf(&sb, "c%d equ c%d+1\n", d, d-1)
+			}
+		}
+		fmt.Fprintf(&sb, "dat #0, #c%d\ni for c3\nmov i, c%d\nrof\n", depth, depth)
+		texts = append(texts, []byte(sb.String()))
+	}
 	// independent EQUs referenced after a repeated one, in FOR counts and operands, random shapes
 	for i := 0; i < 12; i++ {
 		names := []string{"qa", "qb", "qc", "qd"}
